@@ -21,7 +21,7 @@ def parse_type(a):
     if isinstance(a, ast.Name):
         return {"int": ("int",), "float": ("real",), "bool": ("bool",), "str": ("str",), "Any": ("dyn",),
                 "Dict": ("dict", ("str",), ("dyn",)), "dict": ("dict", ("str",), ("dyn",)), "object": ("ref", "object"),
-                "Type": ("class",), "Callable": ("func",)}.get(a.id, ("ref", a.id))
+                "Type": ("class",), "Callable": ("func",), "OrderKind": ("kind",)}.get(a.id, ("ref", a.id))
     if isinstance(a, ast.Subscript):
         base = a.value.id if isinstance(a.value, ast.Name) else a.value.attr
         if base == "Optional":
